@@ -126,6 +126,7 @@ pub fn meta(args: &Args) -> Value {
         "hang_is_violation": false,
         "crash_is_violation": false,
         "budget": args.cases(400, 10000),
+        "sanitizer": {"kind": "asan", "budget": 400, "slowdown": 6},
     })
 }
 
